@@ -145,11 +145,11 @@ func runR03_5(c *Ctx, r *R) {
 	if f := r.Need("mpx", "channelState.receiveClose"); f != nil {
 		key := fnKey(f) + "/payload-before-close"
 		var wr, cl ssa.Instruction
+		for _, call := range queueWritePoints(f) {
+			wr = call.(ssa.Instruction)
+		}
 		for _, call := range callsIn(f, false) {
-			switch calleeLabel(call) {
-			case "recvQueue.Write":
-				wr = call.(ssa.Instruction)
-			case "close":
+			if calleeLabel(call) == "close" {
 				cl = call.(ssa.Instruction)
 			}
 		}
@@ -165,12 +165,7 @@ func runR03_5(c *Ctx, r *R) {
 	// (b) openChannel: payload queued before the channel is returned (published)
 	if f := r.Need("mpx", "openChannel"); f != nil {
 		key := fnKey(f) + "/payload-before-publish"
-		ok := false
-		for _, call := range callsIn(f, false) {
-			if calleeLabel(call) == "recvQueue.Write" {
-				ok = true
-			}
-		}
+		ok := len(queueWritePoints(f)) > 0
 		r.Check(ok, key, f.Pos(), "payload of the open frame is queued inside openChannel, before the channel is registered", "the payload carried by an open frame is not queued: the first message of the channel is lost")
 	}
 	// (c) conn.send: OK only after writeq.Write accepted the frame
@@ -440,19 +435,12 @@ func flagFedByDelete(closure *ssa.Function, fv *ssa.FreeVar) bool {
 		if !ok || st.Addr != ssa.Value(al) {
 			continue
 		}
-		switch v := st.Val.(type) {
-		case *ssa.Const:
-			if v.Value == nil || v.Value.String() != "true" {
-				return false
-			}
-		case *ssa.Extract:
-			dc, ok := v.Tuple.(*ssa.Call)
-			if !ok || v.Index != 1 || calleeLabel(dc) != "channels.Delete" {
-				return false
-			}
-			fed = true
-		default:
+		ok, f := ownershipFlagValue(st.Val, 0)
+		if !ok {
 			return false
+		}
+		if f {
+			fed = true
 		}
 	}
 	return fed
@@ -605,8 +593,8 @@ func runR06_4(c *Ctx, r *R) {
 		}
 		return false
 	}
-	check("channel.receive", "closed-channel", closedLoad)
-	check("channelState.receiveClose", "closed-channel", closedLoad)
+	check("channel.receive", "closed-channel", closedLoad, "closed.Load")
+	check("channelState.receiveClose", "closed-channel", closedLoad, "closed.Load")
 	// the per-channel handlers of data, window and close frames: whatever happens to the channel's own queue or
 	// window (queue closed by a concurrent Free between the closed test and the write) stays inside the channel -
 	// any non-OK status returned here ends the receive loop and with it every channel of the connection
@@ -1020,4 +1008,98 @@ func singleStoreValue(v ssa.Value) ssa.Value {
 		return val
 	}
 	return v
+}
+
+// queueWritePoints: the instructions of f at which a payload is written to the receive queue: a recvQueue.Write call,
+// or a call of a function of the same package that is handed a byte slice and itself (or through one more such
+// helper) writes it to the receive queue.
+func queueWritePoints(f *ssa.Function) []ssa.CallInstruction {
+	var writes func(g *ssa.Function, depth int) bool
+	writes = func(g *ssa.Function, depth int) bool {
+		if g == nil || g.Blocks == nil || depth > 2 {
+			return false
+		}
+		for _, call := range callsIn(g, false) {
+			if calleeLabel(call) == "recvQueue.Write" {
+				return true
+			}
+			if h := call.Common().StaticCallee(); h != nil && h.Pkg == g.Pkg && passesBytes(call) && writes(h, depth+1) {
+				return true
+			}
+		}
+		return false
+	}
+	var out []ssa.CallInstruction
+	for _, call := range callsIn(f, false) {
+		if calleeLabel(call) == "recvQueue.Write" {
+			out = append(out, call)
+			continue
+		}
+		if h := call.Common().StaticCallee(); h != nil && h.Pkg == f.Pkg && passesBytes(call) && writes(h, 1) {
+			out = append(out, call)
+		}
+	}
+	return out
+}
+
+func passesBytes(call ssa.CallInstruction) bool {
+	for _, a := range call.Common().Args {
+		if bytesLike(a.Type()) {
+			return true
+		}
+	}
+	return false
+}
+
+// ownershipFlagValue judges a value stored into the "this caller owns the connection's reference" flag of a deferred
+// cleanup: a bool constant (true: the initial "never published"; false: never frees), the ok result of
+// channels.Delete (owning removal: fed), or a result of a helper of the package that is one of these at every return.
+func ownershipFlagValue(v ssa.Value, depth int) (ok, fed bool) {
+	if depth > 3 {
+		return false, false
+	}
+	switch x := unspill(v).(type) {
+	case *ssa.Const:
+		return x.Value != nil && isBoolType(x.Type()), false
+	case *ssa.Phi:
+		allOK := true
+		for _, e := range x.Edges {
+			o, f := ownershipFlagValue(e, depth+1)
+			if !o {
+				allOK = false
+			}
+			if f {
+				fed = true
+			}
+		}
+		return allOK, fed
+	case *ssa.Extract:
+		dc, isCall := x.Tuple.(*ssa.Call)
+		if !isCall {
+			return false, false
+		}
+		if x.Index == 1 && calleeLabel(dc) == "channels.Delete" {
+			return true, true
+		}
+		h := dc.Call.StaticCallee()
+		if h == nil || h.Blocks == nil || h.Pkg == nil || relPkg(h.Pkg.Pkg.Path()) != "mpx" {
+			return false, false
+		}
+		allOK, any := true, false
+		for _, ret := range returnsOf(h) {
+			if x.Index >= len(ret.Results) {
+				return false, false
+			}
+			any = true
+			o, f := ownershipFlagValue(ret.Results[x.Index], depth+1)
+			if !o {
+				allOK = false
+			}
+			if f {
+				fed = true
+			}
+		}
+		return allOK && any, fed
+	}
+	return false, false
 }
